@@ -682,6 +682,13 @@ func runC16(cs *c16Case, pick func(n int) int) *result {
 	if d := time.Duration(3*c.PersistDelayMs) * time.Millisecond; d > idle {
 		idle = d
 	}
+	// Bounded quiescence (R3): the verdict "never returns" needs a silence far above every engine
+	// timer in play. arch-v2 bounds its StopAndWait by DefaultStopAndWaitTimeout (30 s) and then
+	// returns a coded error, so only a longer silence proves a wedge there.
+	quiet := lab.Quiet
+	if c.Engine == "v2" && quiet < 40*time.Second {
+		quiet = 40 * time.Second
+	}
 	maxSteps := 60*c.TotalRecords() + 800
 	next := 0
 	earlyDone := false
@@ -767,10 +774,10 @@ func runC16(cs *c16Case, pick func(n int) int) *result {
 				continue
 			}
 		}
-		if time.Since(silentSince) > lab.Quiet {
+		if time.Since(silentSince) > quiet {
 			res.Wedged = true
 			res.Stacks = conduitStacks()
-			res.WedgeInfo = fmt.Sprintf("no event for %s; status=%s outstanding=%d pending=%v", lab.Quiet, st, out, w.Sched.PendingLabels())
+			res.WedgeInfo = fmt.Sprintf("no event for %s; status=%s outstanding=%d pending=%v", quiet, st, out, w.Sched.PendingLabels())
 			break
 		}
 	}
